@@ -3,6 +3,7 @@ package harness
 // engine_sched.go: commit / reopen / evict / crash points, per-step checks.
 
 import (
+	"errors"
 	"fmt"
 
 	"github.com/onflow/atree"
@@ -30,8 +31,34 @@ func (e *Engine) doCommit(workers int) error {
 // Commit commits and runs the commit-time oracles.
 func (e *Engine) Commit(workers int) error {
 	dirty := e.St.DeltasWithoutTempAddresses()
-	if err := e.doCommit(workers); err != nil {
-		return e.viol("commit failed: %v", err)
+	for attempt := 0; ; attempt++ {
+		before := len(e.L.Log)
+		err := e.doCommit(workers)
+		if err == nil {
+			break
+		}
+		if !e.AllowCommitFaults || !errors.Is(err, ErrInjected) {
+			return e.viol("commit failed: %v", err)
+		}
+		// C14: an injected ledger failure
+		var x *atree.ExternalError
+		if !errors.As(err, &x) {
+			return e.viol("commit with a failing ledger write returned %T (%v), expected an external error", err, err)
+		}
+		if attempt > 20 {
+			return e.viol("commit still failing after %d retries", attempt)
+		}
+		e.Stats.label("commit_fault_injected")
+		if len(e.L.Log)-before >= 2 {
+			e.Stats.label("commit_fault_after_partial_progress")
+		}
+		if e.St.DeltasWithoutTempAddresses() == 0 {
+			return e.viol("a failed commit left no pending changes although the failing write was never acknowledged")
+		}
+		// reads through the storage still return the latest values
+		if err := e.CompareAll(); err != nil {
+			return err
+		}
 	}
 	e.commits++
 	e.Stats.Commits++
